@@ -736,6 +736,9 @@ class Interp:
             sig = self.block(st.body, env, mod)
             return sig if sig and sig[0] in ('return', 'raise') else None
         self.store(st.target, Unk('loop variable of an unmodelled iterable %s' % up(it)[:60], st), env, mod)
+        if any(isinstance(n_, ast.Call) for b_ in st.body for n_ in ast.walk(b_)):
+            # how often the body runs, and with what, is not known: whatever its calls do is lost
+            self.lost.append((getattr(st, 'lineno', 0), 'for ... in %s' % up(it)[:60], 'loop over an unmodelled iterable'))
         self.block(st.body, env, mod)
         return None
 
@@ -1322,7 +1325,8 @@ class Interp:
         if isinstance(e, ast.JoinedStr):
             return Unk('f-string', e)
         if isinstance(e, ast.Slice):
-            return Unk('bare slice', e)
+            # a slice met as a value (the key handed to a modelled library object): the same as slice(lo, hi, step)
+            return _SliceVal(*[(self.expr(x_, env, mod) if x_ is not None else None) for x_ in (e.lower, e.upper, e.step)])
         if isinstance(e, ast.Lambda):
             return Unk('lambda', e)
         if isinstance(e, ast.Starred):
@@ -1677,6 +1681,8 @@ class Interp:
             k = self.expr(e.slice, env, mod)
             if isinstance(k, int) and -len(v) <= k < len(v):
                 return v[k]
+            if isinstance(k, int) and not isinstance(k, bool):
+                raise PyRaise('IndexError', 'list index %d out of range for a list of %d' % (k, len(v)))
             return Unk('list index %r' % (k,), e)
         if isinstance(v, dict):
             k = self.expr(e.slice, env, mod)
@@ -2018,6 +2024,9 @@ class Interp:
                     return x.with_(poly=alg.mk_ind(last, x.poly), unit=None, dt=None)
                 if last == 'isfinite':
                     return x.with_(poly=alg.b_not(alg.mk_ind('isinf', x.poly)) * alg.b_not(alg.mk_ind('isnan', x.poly)), unit=None, dt=None)
+                if last in ('ceil', 'floor') and x.ndim == 0 and x.poly.is_const():
+                    import math as _math
+                    return float(getattr(_math, last)(x.poly.const_value()))           # of a plain number: a plain number
                 return x.with_(poly=alg.mk_fn(last, P(x.poly)), dt='f' if last == 'exp' else x.dt)
             if last in ('isin', 'in1d') and len(args) == 2 and isinstance(args[1], (list, tuple)) and args[1] and all(_is_pynum(x_) for x_ in args[1]):
                 a = self._as_arr(args[0])
@@ -2320,6 +2329,8 @@ class Interp:
                 if isinstance(x, Foreign):
                     r = x.sl_len(self)
                     return Unk('len of %s' % type(x).__name__, e) if r is NotImplemented else r
+                if isinstance(x, Arr) and x.ndim >= 1 and x.dims[0] in self.axis_len:
+                    return self.axis_len[x.dims[0]]            # the configuration being analysed fixes the length of this axis
                 if isinstance(x, Arr) and x.ndim >= 1:
                     return Arr((), alg.count(x.dims[0]), unit=num(1)) if x.dims[0] else 1
                 if isinstance(x, GenList):
@@ -2335,6 +2346,11 @@ class Interp:
                     lab = _len_label(n.poly) if isinstance(n, Arr) else None
                     if lab:
                         return _Range(lab)
+                if len(args) == 3 and args[2] == 0 and not isinstance(args[2], bool):
+                    raise PyRaise('ValueError', 'range() arg 3 must not be zero')
+                if len(args) in (2, 3) and all(isinstance(a_, int) and not isinstance(a_, bool) for a_ in args):
+                    r_ = range(*args)
+                    return list(r_) if len(r_) <= 64 else Unk('long range', e)
                 return Unk('range%r' % (tuple(args),), e)
             if last == 'zip' and len(args) >= 2 and not kw:
                 args = [(x.sl_iter(self) if isinstance(x, Foreign) and x.sl_iter(self) is not NotImplemented else x) for x in args]
@@ -2377,6 +2393,8 @@ class Interp:
                 return Unk('enumerate', e)
             if last in ('int', 'float'):
                 return self._int(args[0], e) if last == 'int' else (self._as_arr(args[0]) if not _is_pynum(args[0]) else float(args[0]))
+            if last in ('min', 'max') and len(args) == 2 and all(_is_pynum(a_) and not isinstance(a_, bool) for a_ in args):
+                return (min if last == 'min' else max)(args[0], args[1])
             if last in ('min', 'max') and len(args) == 2:
                 a, b = self._as_arr(args[0]), self._as_arr(args[1])
                 if isinstance(a, Unk) or isinstance(b, Unk):
@@ -2467,6 +2485,13 @@ class Interp:
             if last in ('spectral', 'spectral_density'):
                 return Marker(name)
             return Unk('astropy.units.%s' % last, e)
+        if name.startswith('math.') and args and all(_is_pynum(a_) and not isinstance(a_, bool) for a_ in args) and not kw and last in (
+                'floor', 'ceil', 'sqrt', 'log', 'log10', 'exp', 'fabs', 'pow', 'trunc', 'isnan', 'isinf', 'isfinite'):
+            import math as _math
+            try:
+                return getattr(_math, last)(*[float(a_) if isinstance(a_, Fraction) else a_ for a_ in args])          # of plain numbers: computed
+            except (ValueError, OverflowError, ZeroDivisionError) as ex_:
+                raise PyRaise(type(ex_).__name__, str(ex_))
         if name == 'contextlib.closing' and len(args) == 1:
             return _Closing(args[0])
         if name.startswith('copy.') and last in ('copy', 'deepcopy') and args and isinstance(args[0], Obj) and args[0].cls is not None:
@@ -2642,7 +2667,8 @@ class Interp:
             if name == 'strip' and not args and not kw:
                 return recv.with_(poly=alg.mk_fn('strip', P(recv.poly)))          # an element of an array of names, with surrounding blanks removed
             if name == 'searchsorted':
-                return self.libcall('numpy.searchsorted', [recv] + args, kw, e, mod)
+                r_ = self.hooks.external(self, 'numpy.searchsorted', [recv] + list(args), kw, e, mod)         # x.searchsorted(q) is np.searchsorted(x, q)
+                return r_ if r_ is not NotImplemented else self.libcall('numpy.searchsorted', [recv] + args, kw, e, mod)
             if name == 'is_equivalent':
                 other = self._as_arr(args[0]) if args else Unk('')
                 if isinstance(other, Arr):
